@@ -105,7 +105,7 @@ PROPS = {
   "props_modules": ["Ps3.Props.C19"],
   "needs_binary": True,
   "streams": [{"name": "c19", "bad_obs": r"not-listening|dial-failed|starterr", "timeout_quick": 300, "timeout_thorough": 1500}],
-  "rule": "the REAL binary started in a fresh world (own HOME/XDG_CONFIG_HOME, own cwd, free ports): each of the 9 settings given through each of the 6 channels (flag, PS3NETSRV_* variable, --config file, PS3NETSRV_CONFIG_FILE file, ./config.ini, user config dir) alone, every ordered pair of channels with different values, malformed values in every channel (also overridden by a flag), random multi-setting mixes; the effective value is OBSERVED from behaviour (which port answers, which root is served, whether a write lands, whether a non-whitelisted client is dropped, the second-client limit, the idle cut, debug lines, JSON log shape, the debug server port) and compared with the Lean model `effective`",
+  "rule": "the REAL binary started in a fresh world (own HOME/XDG_CONFIG_HOME, own cwd, free ports; every second run that needs no user configuration directory is started without HOME and XDG_CONFIG_HOME at all): each of the 9 settings given through each of the 6 channels (flag, PS3NETSRV_* variable, --config file, PS3NETSRV_CONFIG_FILE file, ./config.ini, user config dir) alone, every ordered pair of channels with different values, malformed values in every channel (also overridden by a flag), random multi-setting mixes; the effective value is OBSERVED from behaviour (which port answers, which root is served, whether a write lands, whether a non-whitelisted client is dropped, the second-client limit, the idle cut, debug lines, JSON log shape, the debug server port) and compared with the Lean model `effective`",
   "assumptions": ["KongSem: kong v1.8.1's Parse pipeline (Reset decodes env, command-line flags win, resolvers asked in order with the last one winning) is transcribed from its source, tied by this differential only",
                   "values are abstracted to two valid tags and one malformed one per setting"],
  },
